@@ -325,14 +325,14 @@ class RouteController:
             interfaces: list of interfaces
 
         Attributes:
-            _unresolved_arp_queries_cache (dict[str, RouteEntry]):
-                A cache to store unresolved ARP queries.
+            _unresolved_arp_queries_cache (dict[str, list[RouteEntry]]):
+                A cache to store the routes waiting for an unresolved next hop.
             _neighbor_cache (dict[str, RouteEntry]):
                 A cache to keep track of entries add in Bess.
             _module_gate_count_cache (Dict[str, int]):
                 A cache for counting module gate occurrences.
         """
-        self._unresolved_arp_queries_cache: Dict[str, RouteEntry] = {}
+        self._unresolved_arp_queries_cache: Dict[str, List[RouteEntry]] = {}
         self._neighbor_cache: Dict[str, NeighborEntry] = {}
         self._module_gate_count_cache: Dict[str, int] = defaultdict(lambda: 0)
 
@@ -471,13 +471,13 @@ class RouteController:
             netlink_message (dict): The netlink message.
         """
         attr_dict = dict(netlink_message["attrs"])
-        route_entry = self._unresolved_arp_queries_cache.get(
-            attr_dict[KEY_NETWORK_LAYER_DEST_ADDR]
-        )
+        next_hop_ip = attr_dict[KEY_NETWORK_LAYER_DEST_ADDR]
+        route_entries = self._unresolved_arp_queries_cache.get(next_hop_ip)
         gateway_mac = attr_dict[KEY_LINK_LAYER_ADDRESS]
-        if route_entry:
-            self._add_neighbor(route_entry, gateway_mac)
-            del self._unresolved_arp_queries_cache[route_entry.next_hop_ip]
+        if route_entries:
+            for route_entry in route_entries:
+                self._add_neighbor(route_entry, gateway_mac)
+            del self._unresolved_arp_queries_cache[next_hop_ip]
 
     def _create_module_links(
         self,
@@ -520,9 +520,12 @@ class RouteController:
 
     def delete_route_entry(self, route_entry: RouteEntry) -> None:
         """Deletes a route entry from BESS and the neighbor cache."""
-        if self._unresolved_arp_queries_cache.get(route_entry.next_hop_ip) == route_entry:
+        waiting = self._unresolved_arp_queries_cache.get(route_entry.next_hop_ip)
+        if waiting and route_entry in waiting:
             # The route was still waiting for its next hop to resolve: it must not be installed later.
-            del self._unresolved_arp_queries_cache[route_entry.next_hop_ip]
+            waiting.remove(route_entry)
+            if not waiting:
+                del self._unresolved_arp_queries_cache[route_entry.next_hop_ip]
             return
 
         next_hop = self._neighbor_cache.get(route_entry.next_hop_ip)
@@ -590,7 +593,11 @@ class RouteController:
         Args:
             route_entry (NeighborEntry): The neighbor entry.
         """
-        self._unresolved_arp_queries_cache[route_entry.next_hop_ip] = route_entry
+        waiting = self._unresolved_arp_queries_cache.setdefault(
+            route_entry.next_hop_ip, []
+        )
+        if route_entry not in waiting:
+            waiting.append(route_entry)
         logger.info("Adding entry %s in arp table by pinging", route_entry)
         send_ping(route_entry.next_hop_ip)
 
